@@ -20,9 +20,9 @@ def sh(cmd, cwd=None, timeout=3600):
     return p.returncode, p.stdout
 
 
-def ingest(pid, wt):
+def ingest(pid, wt, name=None):
     src = os.path.join(wt, "seeded")
-    dst = os.path.join(VERIF, "seeded", pid)
+    dst = os.path.join(VERIF, "seeded", name or pid)
     os.makedirs(dst, exist_ok=True)
     meta = json.load(open(os.path.join(src, "meta.json")))
     out = []
@@ -67,7 +67,7 @@ def run(pid, only=None, tier="quick", props=None):
         rc, o = sh(f"git apply {dst}/{patch}", cwd="/repo")
         assert rc == 0, o
         try:
-            for prop in (props or [pid]):
+            for prop in (props or [pid[:3]]):
                 t0 = time.time()
                 rc, o = sh(f"python3 run/check.py {prop} --tier {tier}", cwd=VERIF, timeout=7200)
                 viol = [l for l in o.splitlines() if l.startswith("VIOLATION")]
@@ -94,7 +94,7 @@ def run(pid, only=None, tier="quick", props=None):
 if __name__ == "__main__":
     a = sys.argv[1:]
     if a[0] == "ingest":
-        ingest(a[1], a[2])
+        ingest(a[1], a[2], a[3] if len(a) > 3 else None)
     else:
         tier, props, only = "quick", None, None
         rest = a[2:]
